@@ -133,8 +133,21 @@ class DbEnv(object):
         self.db, self.Item, self.Typed = db, C30Item, C30Typed
         self.style = db.provider.paramstyle
         self._plain = None
+        self._pid = os.getpid()
+        self.path0 = getattr(self, 'path', None)
     def mark(self):
+        if self.real and self._pid != os.getpid(): self.localize()
         return len(DRIVER_LOG) if self.real else len(self.db.log)
+    def localize(self):
+        """every process works on its own copy of the (read-only) SQLite file: Database.execute opens
+        a write transaction, and on a loaded machine 16 workers on one file ran into 'database is
+        locked' (seen as a non-reproducible 'refused')."""
+        self._pid = os.getpid()
+        path = os.path.join(os.path.dirname(self.path0), '%s-%d.sqlite' % (self.name, self._pid))
+        shutil.copyfile(self.path0, path)
+        try: self.db.disconnect()
+        except Exception: pass
+        self.db.provider.pool.filename = self.path = path
     def sent_since(self, mark):
         log = DRIVER_LOG[mark:] if self.real else self.db.log[mark:]
         return [(s, a) for (s, a) in log if not s.upper().startswith(('BEGIN', 'COMMIT', 'ROLLBACK', 'PRAGMA'))]
@@ -969,17 +982,27 @@ def run(ctx):
     ctx.guard('rows echoed by the real SQLite engine compared', c.get('echo_compared', 0), 500)
     ctx.guard('ordered pairs run', c.get('pairs', 0), 10000)
     ctx.guard('cold references taken from pristine forks', c.get('cold_reference_forks', 0), 20)
+    ctx.guard('type-history ordered pairs run', c.get('type_pairs', 0), 10000)
+    ctx.guard('type-history pairs with the same SQL text and other $-value types / result type', c.get('type_pairs_same_sql_text_other_types', 0), 2000)
+    if not ctx.quick: ctx.guard('type-history ordered triples run', c.get('type_triples', 0), 10000)
     ctx.assume('reference substituter _c30_lib.ref_substitute encodes the documentation of $-parameters; strings whose extent the documentation leaves open (whitespace before a trailer) and malformed strings are counted, not judged')
     ctx.assume('format/pyformat drivers %-interpolate whenever an argument object is passed (DM driver model, vf.engines.dm.bind_placeholders); numeric/named/qmark binding is modelled quote-unaware except on the real SQLite engine')
     ctx.assume('fork costs 20 ms here and does not parallelise, so only the core items, two long histories over all items and every reported signature use pristine forked processes; the other cold references and the separation of the ordered pairs restore the pristine content of every dict/list/set and *cache* attribute of all pony modules, Database, provider, entity and attribute objects (a cache added later is covered unless it lives in a closure)')
     ctx.cov['history_items'] = n
+    ctx.cov['type_history_items'] = tn
+    ctx.cov['type_history'] = dict(values=list(TV_QUICK if ctx.quick else TV_ALL), result_types=list(RT_QUICK if ctx.quick else RT_ALL),
+                                   databases=list(T_DBS_QUICK if ctx.quick else T_DBS_ALL),
+                                   entry_points=sorted(set(it[0].partition(':')[0][2:] for it in TITEMS)),
+                                   fragments=sorted(set(it[1][0] for it in TITEMS)))
     ctx.cov['fragment_alphabet'] = lib.NAMES
     ctx.cov['max_fragments'] = dict(adapt_sql=amax, select_get_exists_execute_by_sql=emax, raw_sql_in_queries=rmax)
-    return dict(evaluations=c.get('evaluations', 0) + c.get('pairs', 0) + c.get('long_history_steps', 0),
-                distinct_nontrivial=distinct + c.get('pairs_distinct_items', 0),
+    return dict(evaluations=c.get('evaluations', 0) + c.get('pairs', 0) + c.get('long_history_steps', 0) + c.get('type_pairs', 0) + c.get('type_triples', 0),
+                distinct_nontrivial=distinct + c.get('pairs_distinct_items', 0) + c.get('type_pairs_distinct_items', 0) + c.get('type_triples', 0),
                 rule='sweep: every fragment sequence up to the bound (deduplicated by statement text) x entry point x database/paramstyle x {frame scope, explicit dicts}; '
                      'non-trivial = contains $ or % and was judged against the reference. '
-                     'history: every ordered pair of (entry point, style, statement) items; non-trivial = the two items differ')
+                     'history: every ordered pair of (entry point, style, statement) items; non-trivial = the two items differ. '
+                     'type history: every ordered pair (same database; thorough: + cross-database subset, + every ordered triple within a call site) of '
+                     '(entry point, database, SQL text, $x value, $y value, result_type) items run at ONE call site per entry point')
 
 def _it(x): return (x[0], tuple(x[1]), x[2])
 def replay(ctx, case):
